@@ -248,8 +248,62 @@ def loop_coupled(fn: ast.FunctionDef, call: ast.Call) -> tuple[bool, str]:
     for d in defs:
         arms += [d.body, d.orelse] if isinstance(d, ast.IfExp) else [d]
     if arms and all(any(f'.join({k})' in ast.unparse(d) for k in lists) for d in arms):
+        # ... and the range is exactly the arguments of the notation: 0 .. arity - 1 (an argument outside it is neither in the
+        # definition nor printed; a range that starts at 1 ignores the first argument)
+        ar = call.args[1] if len(call.args) > 1 else _kw(call, 'arity')
+        if ar is not None and rng != ('0', ast.unparse(ar)):
+            return False, f'the metavariables and placeholders range over range({rng[0]}, {rng[1]}), the notation takes {ast.unparse(ar)} arguments (0 .. arity - 1)'
         return True, ''
     return False, f'a format of the notation does not join all placeholders collected in `{lists[0]}`'
+
+
+def nary_application_agreement(ctx, py: PyRepo):
+    """nary_app(f, n) is the left-nested application ((f a0) a1) .. a(n-1) and deconstruct_nary_application reads exactly that
+    shape back (head by descending to the left, arguments collected left to right): the two are decided together on the values -
+    the builder's loop rebinds the accumulator to App(<accumulator>, MetaVar(i)) starting from the symbol, the reader returns
+    (head', (*args', r)) for App(l, r) with (head', args') read from l."""
+    from ..core.pyeval import PyEval, show
+    mi = py.modules.get('proofs.kore')
+    if mi is None or 'nary_app' not in mi.functions or 'deconstruct_nary_application' not in mi.functions:
+        return
+    b, r = mi.functions['nary_app'], mi.functions['deconstruct_nary_application']
+    where = py.where('proofs.kore', b)
+    steps = [st for lp in ast.walk(b) if isinstance(lp, ast.For) and isinstance(lp.target, ast.Name) for st in ast.walk(lp)
+             if isinstance(st, ast.Assign) and isinstance(st.targets[0], ast.Name) and isinstance(st.value, ast.Call)
+             and ast.unparse(st.value.func) == 'App' and len(st.value.args) == 2]
+    comp_form = not steps
+    ok_b, why = True, ''
+    if steps:
+        st = steps[0]
+        acc = st.targets[0].id
+        lp = next(l_ for l_ in ast.walk(b) if isinstance(l_, ast.For) and any(st is x for x in ast.walk(l_)))
+        a0, a1 = st.value.args
+        if not (isinstance(a0, ast.Name) and a0.id == acc and ast.unparse(a1) == f'MetaVar({lp.target.id})'):
+            ok_b, why = False, f'the builder nests `{ast.unparse(st.value)}`: the accumulated application must be the LEFT operand, the new argument the right'
+        inits = [n.value for n in ast.walk(b) if isinstance(n, (ast.Assign, ast.AnnAssign)) and n.value is not None and n is not st
+                 and ast.unparse(n.targets[0] if isinstance(n, ast.Assign) else n.target) == acc]
+        if ok_b and not (len(inits) == 1 and isinstance(inits[0], ast.Name) and inits[0].id == b.args.args[0].arg):
+            ok_b, why = False, 'the nesting does not start from the symbol'
+    ok_r, why_r = False, 'the reader has no arm for App(l, r)'
+    P = ('param', r.args.args[0].arg)
+    for p in PyEval().paths(r):
+        if p.end[0] != 'return' or not any(c == ('call', ('name', 'isinstance'), (P, ('name', 'App')), ()) and b_ for c, b_ in p.conds):
+            continue
+        rec = ('call', ('name', r.name), (('attr', P, 'left'),), ())
+        want = ('tuple', (('item', rec, 0), ('tuple', (('star', ('item', rec, 1)), ('attr', P, 'right')))))
+        def norm(v):
+            # x[k] with a constant k is the k-th component, however it is spelled
+            if isinstance(v, tuple):
+                v = tuple(norm(x) if isinstance(x, tuple) else x for x in v)
+                if len(v) == 3 and v[0] == 'sub' and isinstance(v[2], tuple) and v[2][:1] == ('const',) and isinstance(v[2][1], int):
+                    return ('item', v[1], v[2][1])
+            return v
+        ok_r = norm(p.end[1]) == want
+        why_r = '' if ok_r else f'for App(l, r) the reader returns `{show(p.end[1])[:80]}`, not (head of l, (*arguments of l, r))'
+    if not comp_form:
+        ctx.ob('format-covers-deps', 'nary-application/left-nested', ok_b and ok_r,
+               'nary_app / deconstruct_nary_application: ' + '; '.join(x for x in (why, why_r) if x)
+               + ' - an n-ary application built one way and read the other permutes its arguments', where)
 
 
 def notation_formats(ctx, py: PyRepo):
@@ -578,6 +632,7 @@ def run(ctx):
     writer_emits(ctx, py, Wiring(py))
     one_line_per_instruction(ctx, py)
     metavar_step_shows_constraints(ctx, py)
+    nary_application_agreement(ctx, py)
     # what is printed for a stack entry is the text of THAT entry: a cache / visited set keyed by hash(entry) or id(entry) hands one
     # entry the text of another (the generated dataclass hashes ignore the class: EVar(1) and SVar(1) collide) - shared with C15
     from .c15 import identity_by_hash
